@@ -72,7 +72,7 @@ class C11(CheckBase):
                   'stub': ['sockets, aiohttp session (consumer sessions only)']}
     assumptions = ['concurrent table access goes through the locked entry points (the _no_lock ones are used by one task '
                    'at a time, as the MDIB does under mdib_lock)']
-    expected_probes = ['failed_add', 'update_object', 'indexed_attr_changed', 'commits', 'consumer_sessions']
+    expected_probes = ['failed_add', 'failed_update', 'update_object', 'indexed_attr_changed', 'commits', 'consumer_sessions']
 
     def budget(self, tier):
         return {'quick': {'runs': 1500, 'wall': 60}, 'thorough': {'runs': 60000, 'wall': 1200}}[tier]
@@ -190,11 +190,25 @@ class C11(CheckBase):
                     obj = live[sorted(live)[op['id'] % len(live)]]
                     attr = op['attr']
                     newv = op[attr]
-                    if attr == 'uid' and any(o.uid == newv and o is not obj for o in live.values()):
-                        newv = obj.uid  # keep the model simple: no clash through update
+                    clash = attr == 'uid' and any(o.uid == newv and o is not obj for o in live.values())
+                    if clash and op['id'] % 3:
+                        newv = obj.uid  # (most of the time no clash through update)
+                        clash = False
                     setattr(obj, attr, newv)
-                    (t.update_object_no_lock if nolock and hasattr(t, 'update_object_no_lock') else t.update_object)(obj)
-                    ctx.probe('update_object')
+                    try:
+                        (t.update_object_no_lock if nolock and hasattr(t, 'update_object_no_lock') else t.update_object)(obj)
+                        if clash:
+                            ctx.violation('C11.rejected', 'unique-clash-accepted-by-update',
+                                          f'{op}: update_object accepted a duplicate unique key')
+                        ctx.probe('update_object')
+                    except KeyError:
+                        # a re-index rejected by the unique index: two stored objects with that key cannot be
+                        # represented, so the object may be gone from the table - but whatever is stored must be
+                        # found by every lookup (audit below)
+                        ctx.probe('failed_update')
+                        ctx.nontrivial = True
+                        if obj not in t._objects:
+                            del live[obj.name]
                 elif k == 'remove' and live:
                     key = sorted(live)[op['id'] % len(live)]
                     obj = live.pop(key)
